@@ -26,7 +26,7 @@ def gen_front(rng, max_n=24, objs=(2, 2, 3, 3, 4, 5), styles=None):
     """non-dominated fronts: continuous simplex, grid-valued, with constant objectives, tied extremes, duplicates"""
     for _ in range(400):
         M = rng.choice(objs); N = rng.randint(1, max_n)
-        style = rng.choice(styles or ["simplex", "simplex", "grid", "gridfront", "gridfront", "perm", "const", "dups", "tiedext", "tinyrange", "hugerange", "curve", "tinyscale"])
+        style = rng.choice(styles or ["simplex", "simplex", "grid", "gridfront", "gridfront", "perm", "const", "dups", "fewdistinct", "tiedext", "tinyrange", "hugerange", "curve", "tinyscale"])
         tied = style == "tiedfront"
         if tied:
             style = "gridfront"
@@ -77,13 +77,20 @@ def gen_front(rng, max_n=24, objs=(2, 2, 3, 3, 4, 5), styles=None):
         elif style == "dups":
             base = [[float(rng.randint(0, 3)) for _ in range(M)] for _ in range(max(1, N // 2))]
             F = np.array([base[rng.randrange(len(base))] for _ in range(N)])
+        elif style == "fewdistinct":
+            # more points than objectives, but only 3 .. n_obj DISTINCT ones (continuous values): after the duplicate filter the metric
+            # sees a front that is not longer than the number of objectives
+            M = max(M, 3); K = rng.randint(3, M); N = K + rng.randint(1, 3)
+            base = [[rng.random() for _ in range(M)] for _ in range(K)]; base = [[x / sum(r) for x in r] for r in base]
+            F = np.array(base + [base[rng.randrange(K)] for _ in range(N - K)])
+            F = F[rng.sample(range(N), N)]
         else:
             F = np.array([[rng.random() for _ in range(M)] for _ in range(N)]); F = F / F.sum(axis=1, keepdims=True)
             if N >= 3:
                 m = rng.randrange(M); F[rng.randrange(N), m] = F[:, m].max(); F[rng.randrange(N), m] = F[:, m].min()
-        if style != "dups" and not nondominated(F):
+        if style not in ("dups", "fewdistinct") and not nondominated(F):
             continue
-        if style == "dups" and not nondominated(np.unique(F, axis=0)):
+        if style in ("dups", "fewdistinct") and not nondominated(np.unique(F, axis=0)):
             continue
         return F, style
     return np.array([[0.0, 1.0], [1.0, 0.0]]), "fallback"
